@@ -95,3 +95,16 @@ package neuronjson
 //@   prop C11
 //@   structural
 
+
+// updateJSON, carry-forward loop (C16: a partial update keeps the fields it does not mention; conditional
+// fields that already have a value keep it): after the loop over the stored document, every stored field
+// that was not nulled by this update is present in the merged document, and every such field named in
+// `conditionals` still has its stored value.
+//@ func updateJSON
+//@   prop C16
+//@   requires origData != newData
+//@   safety_off
+//@   calls_havoc
+//@   modifies *
+//@   invariant loop 6: forall f string :: visited6[f] && !has(deleted_fields, f) ==> has(newData, f)
+//@   invariant loop 6: forall f string :: visited6[f] && !has(deleted_fields, f) && has(protectedFields, f) ==> newData[f] == origData[f]
